@@ -293,6 +293,10 @@ func registerBig(e *engine) {
 			bigSet(a[0], new(big.Int).SetBytes(cb))
 			return a[0]
 		}
+		if src, ok := m.wholeProv(bs, "bigbytes"); ok {
+			bigSet(a[0], src)
+			return a[0]
+		}
 		acc := m.ts.Int(0)
 		for _, b := range bs {
 			acc = m.ts.Add(m.ts.Mul(acc, m.ts.Int(256)), m.termOf(b))
@@ -490,6 +494,7 @@ func (m *machine) bigBytes(x *Term) []value {
 			out[i] = uint8(b.Val.Int64())
 		} else {
 			out[i] = b
+			m.setProv(b, provenance{"bigbytes", ax, i, n})
 		}
 	}
 	return out
@@ -531,6 +536,9 @@ func (m *machine) decimalString(x *Term) value {
 			out = append(out, uint8(c.Val.Int64()))
 		} else {
 			out = append(out, c)
+			if !neg {
+				m.setProv(c, provenance{"decimal", ax, i, n})
+			}
 		}
 	}
 	return mkStr(out)
@@ -542,6 +550,9 @@ func (m *machine) parseDecimal(b []value, allowSign bool) (*Term, bool) {
 	ts := m.ts
 	if len(b) == 0 {
 		return nil, false
+	}
+	if src, ok := m.wholeProv(b, "decimal"); ok {
+		return src, true
 	}
 	neg := false
 	i := 0
